@@ -25,10 +25,12 @@ func init() {
 		ID:    "C04",
 		Level: "fault_enumeration",
 		Rule: "probe-instrumented programs (templates: straight-line, dotimes incl. empty body, tail loop, non-tail recursion, re-expanding macro, map/foldl callbacks, nested load-string, with/without ignore-errors and handler-bind; plus generated programs) are run unlimited under a counting context to obtain N and a step-stamped trace, then under WithMaxSteps(n) for every n in 1..N+2 (all n when N<=400, else n<=64, n>=N-8 and a stride) and under a scripted context cancelled at step k for every such k; " +
+			"definition context x call context: a function (defun, global lambda, labels, closure made by an earlier request or returned to the host, closure stored in a map, callback of map/foldl/apply, macro body; 20 body shapes) is defined in a fresh runtime under each of {no context, context.Background(), a live cancelable context, a context cancelled once the phase has returned, a distant deadline, a root WithContext} through each loading entry point, then run as a request through each *Context entry point under a DIFFERENT context (scripted, or a real WithCancel / child-of-cancelled-parent / WithDeadline context cancelled by the step hook) cancelled at sampled steps k: the trace is the uncancelled request cut at k-1, ends in context-cancelled at step k; " +
 			"physical-height, eval-nesting, tail-iteration and macro-expansion limits are enumerated 1..40 (1..20 for macros) against recursion depths around each bound with hook assertions on every push and eval entry. distinct_nontrivial counts distinct (program template, limit kind, limit value bucket, outcome) combinations",
 		Assumptions: []string{
 			"the unlimited run is made under a never-cancelled context so that steps are counted (the step counter is only live when a context or a budget is configured)",
 			"when an error-swallowing form intercepts the limit error the final outcome is not compared, only that nothing further happened (no probe beyond the budget)",
+			"an uncancelled request does the same (probe trace, outcome) whatever context its functions were defined under; a request whose own context is alive does not end in context-cancelled because a context of an earlier, finished phase is cancelled",
 			"tail-iteration and macro-expansion bounds are checked as 'succeeds at or below the bound, fails beyond bound+1': the exact off-by-one of each counter is not part of the statement",
 		},
 		Cases:       func(tier string) int { return pick(tier, 420, 9000) },
@@ -48,6 +50,10 @@ type c04Mon struct {
 	maxNest    int
 	pushes     int64
 	evals      int64
+	// cancelAt > 0: cancel() is called the moment the step counter reaches cancelAt
+	// (before that step's own context poll), see c04_crossctx.go
+	cancelAt int64
+	cancel   func()
 }
 
 var c04Cur *c04Mon
@@ -64,6 +70,9 @@ func c04Init(w *fw.W) {
 				m.badStep = fmt.Sprintf("step counter went from %d to %d", m.lastSteps, steps)
 			}
 			m.lastSteps = steps
+			if m.cancelAt > 0 && steps == m.cancelAt && m.cancel != nil {
+				m.cancel()
+			}
 		},
 		Push: func(s *lisp.CallStack, h int) {
 			if m := c04Cur; m != nil {
@@ -209,6 +218,7 @@ func c04Run(w *fw.W, idx int) {
 		c04OtherLimits(w, idx)
 	default:
 		c04Refill(w, idx)
+		c04CrossCtx(w, idx)
 	}
 }
 
